@@ -286,7 +286,7 @@ Definition do_call (s : wst) (c : call) : res unit * wst :=
   | CEnd => end_step s
   | _ => lift s
   match c with
-  (* initProgram: data_->reset() and (since the repair 537d726) theory_.reset(): everything but the bytes already written starts afresh,
+  (* initProgram: data_->reset() and (since the repair b0fbe3f) theory_.reset(): everything but the bytes already written starts afresh,
      so a writer used for a second program behaves like a new one *)
   | CInit inc => Ok (mkW [] [] [] (if inc then 0 else -1) (out s) [] [] [] 0 0 0)
   | CBegin => Ok (begin_step s)
